@@ -144,7 +144,9 @@ def deep_merge_multi_update(dct, merge_dct):
                     '_multi_update': [
                         dct[k], merge_dct[k]]}
         else:
-            dct[k] = merge_dct[k]
+            # copy nested dictionaries: later merges into dct must not
+            # write into the dictionaries that were merged in
+            dct[k] = deep_copy_internal(merge_dct[k])
     return dct
 
 
